@@ -5,6 +5,8 @@ import PdfModel.Lemmas.XrefTableWriter
 import PdfModel.Lemmas.XrefWalk
 import PdfModel.Lemmas.XrefFile
 import PdfModel.Lemmas.XrefTableTotal
+import PdfModel.Lemmas.XrefFiltered
+import PdfModel.Lemmas.XrefFilteredSection
 
 /-!
 # C02 — the newest cross-reference entry for an object always wins
@@ -547,6 +549,177 @@ example : XrefTableSpec.StrictEntry (.raw 100 1) (XrefTableSpec.entryBytes (.raw
 example : XrefTable.parseTable "0 1 0000000000 65535 x \ntrailer".toUTF8.toList.toArray 100 0 = .err := by decide +kernel
 example : XrefTable.parseTable "0 2 0000000000 65535 f \ntrailer".toUTF8.toList.toArray 100 0 = .err := by decide +kernel
 example : XrefTable.parseTable "0 1 0000000000 65535 f \n".toUTF8.toList.toArray 100 0 = .err := by decide +kernel
+
+
+/-! ## Filtered cross-reference streams
+
+Real files store the rows of a cross-reference stream compressed: `/Filter /FlateDecode /DecodeParms
+<< /Predictor 12 /Columns w >>`, sometimes inside an ASCII filter.  The filter model is `Model/Enc`
+(C05 package: `decodeChain`, `unpredict` with its row loop; zlib is third-party code, what it returns for
+the compressed bytes is the explicit hypothesis carried by the encoder relation `Enc.EncodesStep` of
+`Props/C05`); the writer side is `Lemmas/XrefFiltered` (`rowData`, `predicted`, `PngFlate`,
+`FilteredData`). -/
+
+section Filtered
+open Enc XrefFiltered
+
+/-- **C02, stream format with filters, reader ∘ writer = sections.** For every list of subsections, every
+    widths triple `≤ 8` (not all zero) that fits the fields, and every filter chain `fs` under which `y` is a
+    conforming encoding of the rows (`FilteredData` = the chain relation of C05: any of the dispatch's
+    filters, any length): undoing the filters with the C05 model and reading the rows returns the sections, in
+    strict and tolerant mode. -/
+theorem filtered_stream_section_reads_back (X : Ext) (fs : List Filter) (subs : List Sub) (w0 w1 w2 : Nat)
+    (allowErr : Bool) (h0 : w0 ≤ 8) (h1 : w1 ≤ 8) (h2 : w2 ≤ 8)
+    (hf : ∀ s ∈ subs, ∀ e ∈ s.entries, Fits w0 w1 w2 e) (hpos : 0 < w0 + w1 + w2)
+    (y : List UInt8) (h : FilteredData X fs w0 w1 w2 subs y) :
+    ∃ data, decodeChain X y fs = .ok data ∧
+      parseSections [w0, w1, w2] allowErr (subs.map fun s => (s.first, s.entries.length)) data [] = .ok subs := by
+  refine ⟨rowData w0 w1 w2 subs, decodeChain_of_encodes h, ?_⟩
+  have := stream_sections_read_back subs w0 w1 w2 allowErr h0 h1 h2 hf hpos []
+  simpa [rowData] using this
+
+/-- **The usual shape: Flate over PNG-predicted rows.** Parameters of *any* geometry whose row size is the row
+    width `w0+w1+w2` (in particular `/Columns w0+w1+w2`, see `png_columns_geometry`), any predictor value
+    10–15, *any* PNG filter type chosen per row (`types`), zlib framing (hypothesis: the third-party inflate
+    returns the predicted bytes for `z`), bare or wrapped in ASCIIHex / ASCII85 (any conforming encoding of
+    `z`): decoding and reading the rows returns the sections. -/
+theorem png_flate_stream_section_reads_back (X : Ext) (subs : List Sub) (w0 w1 w2 : Nat) (allowErr : Bool)
+    (h0 : w0 ≤ 8) (h1 : w1 ≤ 8) (h2 : w2 ≤ 8)
+    (hf : ∀ s ∈ subs, ∀ e ∈ s.entries, Fits w0 w1 w2 e) (hpos : 0 < w0 + w1 + w2)
+    (fs : List Filter) (y : List UInt8) (h : PngFlate X w0 w1 w2 subs fs y) :
+    ∃ data, decodeChain X y fs = .ok data ∧
+      parseSections [w0, w1, w2] allowErr (subs.map fun s => (s.first, s.entries.length)) data [] = .ok subs :=
+  filtered_stream_section_reads_back X fs subs w0 w1 w2 allowErr h0 h1 h2 hf hpos y
+    (pngFlate_filtered X w0 w1 w2 subs hf h)
+
+/-- `/Predictor k /Columns S` with the defaults `/Colors 1 /BitsPerComponent 8`: the row size is `S` -/
+theorem png_columns_geometry (k : Int) (S : Nat) (hS : 1 ≤ S) (hb : S ≤ 24) (early : Int) :
+    predictorGeometry { predictor := k, colors := 1, bpc := 8, columns := (S : Int), earlyChange := early } = .ok (1, S) :=
+  columns_geometry k S hS (by omega) early
+
+/-- how one section of a history is stored in the file, filters included -/
+inductive StoredF where
+  | table (tbl : List UInt8)
+  | stream (w0 w1 w2 : Nat)
+  /-- cross-reference stream with these widths whose data `y` is encoded for the filter list `fs` -/
+  | filtered (w0 w1 w2 : Nat) (fs : List Filter) (y : List UInt8)
+
+def StoredFOK (X : Ext) (sec : List Sub) : StoredF → Prop
+  | .table tbl => XrefTableSpec.TableText sec tbl
+  | .stream w0 w1 w2 => w0 ≤ 8 ∧ w1 ≤ 8 ∧ w2 ≤ 8 ∧ (∀ s ∈ sec, ∀ e ∈ s.entries, Fits w0 w1 w2 e) ∧ 0 < w0 + w1 + w2
+  | .filtered w0 w1 w2 fs y => w0 ≤ 8 ∧ w1 ≤ 8 ∧ w2 ≤ 8 ∧ (∀ s ∈ sec, ∀ e ∈ s.entries, Fits w0 w1 w2 e) ∧
+      0 < w0 + w1 + w2 ∧ FilteredData X fs w0 w1 w2 sec y
+
+def ReadsBackF (X : Ext) (allowErr : Bool) (sec : List Sub) : StoredF → Prop
+  | .table tbl => ReadsBack allowErr sec (.table tbl)
+  | .stream w0 w1 w2 => ReadsBack allowErr sec (.stream w0 w1 w2)
+  | .filtered w0 w1 w2 fs y => ∃ data, decodeChain X y fs = .ok data ∧
+      parseSections [w0, w1, w2] allowErr (sec.map fun s => (s.first, s.entries.length)) data [] = .ok sec
+
+/-- **C02, mixed formats with filters.** Every section of the history independently a classic table (any
+    layout), an unfiltered cross-reference stream, or a filtered one (any conforming filter chain, e.g. Flate
+    with a PNG predictor and any row filter types): each is read back by the reader of its format — for the
+    filtered ones the C05 filter model followed by the row reader — and the merge holds the newest mention of
+    every well-formed object number. -/
+theorem file_history_newest_wins_filtered (X : Ext) (size : Nat) (secs : List (List Sub × StoredF)) (id : Nat)
+    (hid : id < size) (wf : WF (secs.map (·.1)) id) (allowErr : Bool) (hw : ∀ s ∈ secs, StoredFOK X s.1 s.2) :
+    (∀ s ∈ secs, ReadsBackF X allowErr s.1 s.2) ∧
+    ∃ t, mergeAll (newTable size) (secs.map (·.1)).reverse = .ok t ∧
+      t[id]? = some ((latest (secs.map (·.1)) id).getD .invalid) := by
+  refine ⟨?_, merge_newest_wins size _ id hid wf⟩
+  intro s hs
+  have hok := hw s hs
+  obtain ⟨sec, f⟩ := s
+  cases f with
+  | table tbl =>
+    intro buf g rest p hg hb hsuf
+    exact table_section_reads_back _ g _ rest hg hok hb p hsuf
+  | stream w0 w1 w2 =>
+    obtain ⟨a, b, c, hf, hpos⟩ := hok
+    have := stream_sections_read_back sec w0 w1 w2 allowErr a b c hf hpos []
+    simpa [ReadsBackF, ReadsBack] using this
+  | filtered w0 w1 w2 fs y =>
+    obtain ⟨a, b, c, hf, hpos, hfd⟩ := hok
+    exact filtered_stream_section_reads_back X fs sec w0 w1 w2 allowErr a b c hf hpos y hfd
+
+end Filtered
+
+
+section FilteredFile
+open PdfLex XrefTable XrefFiltered Offsets
+open PdfSyntax (Gap Bnd WFE keysOf vdepthE needE)
+
+variable {R V : Type}
+
+/-- **C02, a (filtered) cross-reference stream section in a file.** The contract `ReadsAt` of the `/Prev` walk holds
+    for every section `StreamAt` describes — an indirect stream object at the section's offset, any gaps, whose
+    dictionary names the filter list under which its data is a conforming encoding of the rows — with the
+    section-head model of the C17 package (`XrefSec.stmC`: `parse_indirect_stream`, `XRefInfo::from_dict`, `/Index`
+    parity) and the filter model of the C05 package (`XrefFilters.decOf` over `Enc.decodeChain`) plugged in. -/
+theorem filtered_stream_section_at_reads_back (env : Env R) (hd : env.decrypt = none) (X : Enc.Ext) (tolerant allowErr : Bool)
+    (base : Offsets.Parsers V (Dict R)) (buf : List UInt8) (start : Nat) (r : Offsets.Rev (Dict R))
+    (hsz : buf.length ≤ 2147483647) (h : StreamAt env X tolerant buf start r) :
+    Offsets.ReadsAt (fileParsers { env with fileOffset := 0 }
+      (XrefSec.stmC env (XrefFilters.decOf X tolerant) allowErr) base) buf start r := by
+  obtain ⟨y, txt, rest, w0, w1, w2, size, fs, hdrop, hle, hst, hbr, hwf, hnd, hlen, hdepth, hxi, hfs, h0, h1, h2, hf, hpos,
+    hfd⟩ := h
+  refine ⟨by unfold OffLex.usizeMax; omega, hle, ?_⟩
+  show xrefAt _ _ (buf.drop (start + r.off)) = _
+  rw [hdrop]
+  have hlen2 : (txt ++ rest).length ≤ 2147483647 := by
+    have : (buf.drop (start + r.off)).length ≤ buf.length := by simp
+    rw [hdrop] at this; omega
+  have hneed := streamSectionText_need env.parseReal r.trailer y txt hst
+  have hsuf : Suffix (txt ++ rest).toArray 0 (txt ++ rest) := suffix_zero _
+  -- the rows are decoded and read back
+  have hdec : XrefFilters.decOf X tolerant r.trailer y = .ok (rowData w0 w1 w2 r.subs) := by
+    simp [XrefFilters.decOf, hfs, Enc.decodeChain_of_encodes hfd]
+  have hps := stream_sections_read_back r.subs w0 w1 w2 allowErr h0 h1 h2 hf hpos []
+  have hhead := parseXrefStreamAndTrailer_spec env hd (XrefFilters.decOf X tolerant) allowErr r.trailer y txt rest hst hwf hnd
+    hlen hdepth (buf := (txt ++ rest).toArray) (by simpa using hlen2) (PdfLex.defaultFuel (txt ++ rest).toArray) 0
+    (by simp [PdfLex.defaultFuel]; omega) hsuf hbr _ hxi _ hdec _ (pairsOf_flat r.subs) r.subs
+    (by simpa [rowData] using hps)
+  -- the dispatch: the first lexeme is the object number, `back` returns to it
+  obtain ⟨a, g1, b, g2, g3, stxt, g4, g5, tailw, id, gen, htxt, ha, _, hid, _, hg1, hg1ne, _⟩ := hst
+  obtain ⟨_, _, a3, a4⟩ := natTok_spec a id ha hid
+  have hs1 : Suffix (txt ++ rest).toArray 0 ([] ++ a ++ (g1 ++ b ++ g2 ++ kwObj ++ g3 ++ stxt ++ g4 ++ kwEndobj ++ g5 ++ tailw ++ rest)) := by
+    have e : [] ++ a ++ (g1 ++ b ++ g2 ++ kwObj ++ g3 ++ stxt ++ g4 ++ kwEndobj ++ g5 ++ tailw ++ rest) = txt ++ rest := by
+      rw [htxt]; simp
+    rw [e]; exact hsuf
+  obtain ⟨hn, hsl⟩ := next_regular [] a _ 0 Gap.nil hs1 a3 a4 (by simpa using gap_bnd hg1 hg1ne _)
+  have hback := RepBytes.back_first_token a _ (by simpa using hs1) a3 (fun c hc => reg_not_ws c (a4 c hc))
+  simp only [List.length_nil, Nat.zero_add, Nat.add_zero] at hn hsl
+  simp only [xrefAt, readXrefAndTrailerAt, hn, hsl, natTok_ne_xref a id ha, Bool.false_eq_true, if_false, hback,
+    XrefSec.stmC, hhead]
+
+
+/-- **C02 for a file whose sections are classic tables or (filtered) cross-reference streams.**
+    `XrefSec.loadTableC` is `Backend::read_xref_table_and_trailer` with both section readers concrete (C17) and the
+    stream data decoded by the filter model (C05).  Every section of the chain is a classic section in any
+    conforming layout (`ClassicAt`) or a cross-reference stream object whose rows are stored under any
+    conforming filter chain (`StreamAt`: e.g. `/FlateDecode` with `/Predictor 12 /Columns w`, any PNG filter type
+    per row, see `png_flate_stream_section_reads_back`); the dictionaries link the chain through `/Prev`, the newest
+    carries `/Size`.  Then the walk returns the newest trailer dictionary and a table of `/Size + 1` slots that holds
+    the newest mention of every well-formed object number.  The only hypothesis on third-party code is the one
+    inside `FilteredData` (what zlib returns for the compressed bytes). -/
+theorem file_walk_newest_wins_filtered (env : Env R) (hd : env.decrypt = none) (X : Enc.Ext) (tolerant allowErr : Bool)
+    (base : Parsers V (Dict R)) (buf : List UInt8) (start fuel : Nat) (hsz : buf.length ≤ 2147483647)
+    (newest : Rev (Dict R)) (older : List (Rev (Dict R))) (size : Nat)
+    (hx : locateXref buf = .ok newest.off) (hin : start + newest.off < buf.length)
+    (hsec : ∀ r ∈ newest :: older, ClassicAt { env with fileOffset := 0 } buf start r ∨ StreamAt env X tolerant buf start r)
+    (hsize : dictGet newest.trailer keySize = some (.int (size : Int))) (hmax : size ≤ maxId)
+    (hlink : PrevLinked (newest :: older)) (hnd : (older.map (·.off)).Nodup) (hfuel : older.length ≤ fuel)
+    (id : Nat) (hid : id < size) (wf : WF (historyOf (newest :: older)) id) :
+    ∃ t, XrefSec.loadTableC env (XrefFilters.decOf X tolerant) allowErr base fuel buf start = .ok (t, newest.trailer) ∧
+      t.length = size + 1 ∧ t[id]? = some ((latest (historyOf (newest :: older)) id).getD .invalid) := by
+  apply file_walk_newest_wins { env with fileOffset := 0 } hd (XrefSec.stmC env (XrefFilters.decOf X tolerant) allowErr)
+    base buf start fuel hsz newest older size hx hin _ hsize hmax hlink hnd hfuel id hid wf
+  intro r hr
+  rcases hsec r hr with h | h
+  · exact Or.inl h
+  · exact Or.inr (filtered_stream_section_at_reads_back env hd X tolerant allowErr base buf start r hsz h)
+
+end FilteredFile
 
 /-! ### Non-vacuity (file level)
 
